@@ -1,6 +1,7 @@
 """C15 monitor: EOM blocks (square pulses, off-detuning from the allowed set, buffers)."""
 from __future__ import annotations
 
+import math
 import numpy as np
 
 from vmon.prog import Event, Monitor, Runner
@@ -81,6 +82,16 @@ class EomMonitor(Monitor):
                 if new:
                     ctx.violation("buffer", f"enable_eom_mode on an empty channel inserted {[(s['kind'], s['ti'], s['tf']) for s in new]}",
                                   "buffer-on-empty-channel")
+                if ev.op.get("cpd") and chan_end(cpost) == 0:
+                    # no time has passed on this channel (it is still empty, the block it is in started at t = 0): there is
+                    # no drift to correct, the references of its atoms stay where they were
+                    ctx.count("drift_corrections_on_a_still_empty_channel")
+                    pa, pb = ev.pre["bref"].get(obj.basis, {}), ev.post["bref"].get(obj.basis, {})
+                    moved = {q: (pa[q][1][-1], pb[q][1][-1]) for q in pb if q in pa and abs((pa[q][1][-1] - pb[q][1][-1] + math.pi) % (2 * math.pi) - math.pi) > 1e-12}
+                    if moved:
+                        ctx.violation("drift-correction", f"{name}(correct_phase_drift=True) on a channel that is still empty moved the "
+                                      f"phase reference (before, after): {dict(list(moved.items())[:2])}; off-detuning of the block left: "
+                                      f"{cpre['eom'][-1][4] if cpre['eom'] else None!r}", f"drift-correction:empty-channel:{name}")
             else:
                 ctx.count("buffers_checked")
                 buf = new[-1] if new else None
